@@ -475,6 +475,15 @@ func ruleProtoAcyclic(c *Ctx, r *R) {
 					r.ok(key, site, "prototype set on an object created in this function")
 					continue
 				}
+				// a helper that finishes an object its callers have just created: every call site passes a fresh object
+				if p, ok := fa.X.(*ssa.Parameter); ok {
+					if c.argAtAllCallSites(p, func(a ssa.Value, site ssa.CallInstruction) bool {
+						return freshObject(a, site.Parent(), 0)
+					}, 0) {
+						r.ok(key, site, "prototype set on a parameter that every call site binds to an object it has just created")
+						continue
+					}
+				}
 				// intrinsic assembly: the object is loaded from rt.global.* / rt.globalObject in newContext-like setup
 				if a := loadAddr(fa.X); a != nil {
 					if n, f := fieldOfAddr(a); n != nil && (n.Obj().Name() == "global" || (n.Obj().Name() == "runtime" && f.Name() == "globalObject")) {
